@@ -105,6 +105,8 @@ CHECKS = {
 for _pid, _mod in {
     "C05": "c05",
     "C07": "c07",
+    "C10": "c10",
+    "C11": "c11",
     "C13": "c13",
     "C14": "c14",
 }.items():
